@@ -25,6 +25,7 @@ _LEAN = _os.path.join(_os.path.dirname(_os.path.abspath(__file__)), "lean")
 READY = {
     "OHVerif.Props.C06", "OHVerif.Props.C07", "OHVerif.Props.C08",
     "OHVerif.Lemmas.VecBackend", "OHVerif.Lemmas.Kahn",
+    "OHVerif.Props.C01", "OHVerif.Props.C02", "OHVerif.Props.C05",
 }
 
 def _mods(*names):
